@@ -552,13 +552,31 @@ func runScenario(r *vlib.Run, mode string, trial int, rng *rand.Rand) {
 	}
 	r.Eval(1)
 	wit := func() map[string]interface{} {
-		var resp []string
-		for i, x := range sc.scripts[0].responses {
-			if i < 60 {
-				resp = append(resp, prototext.MarshalOptions{}.Format(x))
+		streams := map[string][]string{}
+		for _, s := range sc.scripts {
+			for i, x := range s.responses {
+				if i < 80 {
+					streams[s.name] = append(streams[s.name], prototext.MarshalOptions{}.Format(x))
+				}
 			}
 		}
-		return map[string]interface{}{"mode": mode, "targets": nT, "shared_request": sharedReq, "dev0_stream": resp, "collector_log_tail": tailFile(sc.collLog, 1500)}
+		sessions := map[string]int{}
+		for _, s := range sc.scripts {
+			s.mu.Lock()
+			sessions[s.name] = s.sessions
+			s.mu.Unlock()
+		}
+		var notable []string
+		if b, err := os.ReadFile(sc.collLog); err == nil {
+			for _, l := range strings.Split(string(b), "\n") {
+				if strings.Contains(l, "Retrying") || strings.Contains(l, "successfully subscribed") || strings.Contains(l, "Attempting") || strings.HasPrefix(l, "E") || strings.HasPrefix(l, "W") || strings.Contains(l, "dropped") {
+					if len(notable) < 60 {
+						notable = append(notable, l)
+					}
+				}
+			}
+		}
+		return map[string]interface{}{"mode": mode, "targets": nT, "shared_request": sharedReq, "streams": streams, "target_sessions": sessions, "collector_log_notable": notable, "collector_log_tail": tailFile(sc.collLog, 1500)}
 	}
 	// Client-library subscribers: one per target plus one for "*".
 	type obs struct {
@@ -657,6 +675,22 @@ func runScenario(r *vlib.Run, mode string, trial int, rng *rand.Rand) {
 				}
 				time.Sleep(10 * time.Millisecond)
 			}
+		}
+	}
+	// The sentinel alone is not quiescence: a subscriber that started while the
+	// collector was still receiving may get the sentinel through the streaming
+	// path while its initial walk is still inserting leaves. The walk's last
+	// insertion is the sync marker, so sentinel AND sync (FIFO per subscriber)
+	// mean nothing is pending.
+	for _, o := range observers {
+		select {
+		case <-o.c.Synced():
+		case <-o.done:
+			r.Violation(mode, trial, "subscribe-refused", fmt.Sprintf("client subscription for target %q through the collector ended: %v", o.target, o.err), wit())
+			return
+		case <-time.After(time.Until(deadline)):
+			r.Inconclusive("subscriber saw the sentinel but no sync_response within the deadline")
+			return
 		}
 	}
 	// The request each target received = configured request with the target stamped in.
@@ -969,8 +1003,8 @@ func prepare(tier, work string) error {
 }
 
 func body(r *vlib.Run) {
-	r.ForTrials("relay", r.N(16, 160), func(trial int, rng *rand.Rand) { runScenario(r, "relay", trial, rng) })
-	r.ForTrials("pathorigin", r.N(4, 16), func(trial int, rng *rand.Rand) { runScenario(r, "pathorigin", trial, rng) })
+	r.ForTrials("relay", r.N(24, 800), func(trial int, rng *rand.Rand) { runScenario(r, "relay", trial, rng) })
+	r.ForTrials("pathorigin", r.N(4, 40), func(trial int, rng *rand.Rand) { runScenario(r, "pathorigin", trial, rng) })
 }
 
 func main() {
@@ -984,7 +1018,7 @@ func main() {
 			"the collector's own meta/ subtree is excluded from every comparison",
 		},
 		QuickShards: 8, ThoroughShards: 16,
-		MinDistinctQuick: 8, MinDistinctThorough: 80,
+		MinDistinctQuick: 10, MinDistinctThorough: 300,
 		Prepare: prepare,
 		Body:    body,
 	})
